@@ -109,6 +109,11 @@ def execute(acc, case):
                     if m is None:
                         return
                     delivered.append(m)
+            if case.get("park") is not None:
+                # park sweep (DESIGN 2.5b): the application thread is descheduled at its n-th source line inside get_message()
+                # until the state machine has handed over every message of the sequence (or one virtual second has passed)
+                sc.sched.parks.append({"task": "consumer", "nth": case["park"], "timeout": 1.0,
+                                       "release": lambda: len([c for c in sc.consumed if c[0] == "Open"]) >= len(kinds)})
             sc.sched.spawn("consumer", consumer)
             expected_app = [k for k in kinds if k[0] == "APP"]
             expected_dwr = [k[1] for k in kinds if k[0] == "DWR"]
@@ -118,6 +123,10 @@ def execute(acc, case):
             ok = sc.sched.run_until(done, 3.0, "delivery")
             sc.sched.run_until(lambda: False, 0.01, "grace")     # a little longer: duplicates would show up now
             acc.counters["executions"] += 1
+            if sc.sched.parked_at:
+                acc.counters["consumer_parked_while_messages_arrive"] += 1
+                acc.extra.setdefault("parked_at", {})
+                acc.extra["parked_at"][sc.sched.parked_at[0][1]] = acc.extra["parked_at"].get(sc.sched.parked_at[0][1], 0) + 1
             got = []
             for m in delivered:
                 try:
@@ -232,6 +241,10 @@ def plan(tier, seed):
                       "seg": rng.choice(modes), "strategy": strat, "p": rng.choice([0.02, 0.1, 0.3]),
                       "role": rng.choice(["client", "server"]), "settle": rng.random() < 0.7,
                       "recv_cap": rng.choice([None, None, 1, 7, 64, 4096]), "transport": rng.choice(["TCP", "TCP", "TCP", "SCTP"])})
+    for nth in range(0, 70 if q else 160):
+        for seg in (["whole"] if q else ["whole", "per-message", "header-internal"]):
+            cases.append({"seed": seed * 31 + nth, "n": 5, "seg": seg, "strategy": "rw", "p": 0.02, "role": ("client", "server")[nth % 2],
+                          "settle": False, "park": nth})
     for i in range(2 if q else 40):
         cases.append({"seed": seed * 977 + i, "n": 4, "big": True, "seg": rng.choice(["whole", "random"]), "strategy": "rr",
                       "role": "client", "recv_cap": rng.choice([None, 65536])})
@@ -252,7 +265,7 @@ def main(tier, seed):
                           ["vnet is a model of Linux TCP sockets (fidelity self-test in tools/selftest_vnet.py); schedules are explored at "
                            "synchronisation-operation and source-line granularity of transport.py/setup.py/statemachine.py",
                            "bounded progress: all messages delivered within 3 virtual seconds after the last byte (the unchanged code needs milliseconds)"],
-                          t0, require_counters=("executions", "steps", "recv_chunks", "real_loopback_ok"))
+                          t0, require_counters=("executions", "steps", "recv_chunks", "real_loopback_ok", "consumer_parked_while_messages_arrive"))
 
 
 def replay(w):
